@@ -33,7 +33,7 @@ def gen_data(r, budget):
 
 def gen_tree(r, depth, budget, t0):
     """(tree, next mtime)"""
-    if depth >= 4 or r.chance(3, 5):
+    if depth >= 4 or (depth > 0 and r.chance(11, 20)) or (depth == 0 and r.chance(1, 6)):
         return ("F", r.choice(FMODES) if r.chance(2, 3) else r.below(4096), t0 + r.below(100000), gen_data(r, budget))
     kids = {}
     for _ in range(r.weighted([(0, 1), (1, 2), (2, 3), (3, 2), (4, 1)])):
@@ -254,7 +254,9 @@ def judge_pdcp(c, before, after, rc, err):
         for nm, src in c.srcs.items():
             pre = db[3].get(nm)
             m = expected_merge(pre, src, nblocked)
-            exp_dir = ("D", None, None, dict(exp_dir[3], **{nm: m}))
+            kids = dict(exp_dir[3])
+            kids[nm] = m
+            exp_dir = ("D", None, None, kids)
             if not nblocked:
                 faithful(src, da[3].get(nm) if da else None, c.pres, "%s/%s/%s" % (tag, c.dest.decode(), nm.decode()), out)
         exp_host = put(hb, destp, exp_dir) if destp else ("D", None, None, exp_dir[3])
@@ -451,16 +453,16 @@ def run(ctx):
     r = ctx.rng("trees")
     cases = load_corpus()
     ncorpus = len(cases)
-    plan = [("fresh", 60), ("overwrite", 40), ("obstacle", 30), ("single-file", 25), ("rpdcp", 35)]
+    plan = [("fresh", 120), ("overwrite", 80), ("obstacle", 60), ("single-file", 40), ("rpdcp", 70)]
     for kind, n in plan:
-        for _ in range(n if quick else n * 8):
+        for _ in range(n if quick else n * 6):
             cases.append(gen_case(r, 0, kind))
     for i, c in enumerate(cases):
         c.idx = i
     ctx.log("copying %d generated trees to %d targets each (%d from the corpus); code under test: new directories chmod'ed under -p: %s, refused directories skipped: %s"
             % (len(cases), len(HOSTS), ncorpus, bool(flags["dirmode"]), bool(flags["skip"])))
     answers, raw = execute(ctx, real, model, cases, blk, flags)
-    dist, bad_s, bad_c, samples, nontrivial, nbytes = {}, 0, 0, [], 0, 0
+    dist, bad_s, bad_c, samples, nontrivial, nbytes, seen_cls = {}, 0, 0, [], 0, 0, {}
     for c, ans in zip(cases, answers):
         dist[c.kind] = dist.get(c.kind, 0) + 1
         nfiles = sum(len(pcpeng.flat(t)) for t in c.srcs.values())
@@ -470,7 +472,9 @@ def run(ctx):
         fails = judge_rpdcp(c, c.before, c.after, c.rc, c.err) if c.reverse else judge_pdcp(c, c.before, c.after, c.rc, c.err)
         if fails:
             bad_s += 1
-            if bad_s <= 4:
+            cls = "mode" if "mode " in fails[0] else ("mtime" if "mtime" in fails[0] else ("obstacle" if c.kind == "obstacle" else "content"))
+            seen_cls[cls] = seen_cls.get(cls, 0) + 1
+            if seen_cls[cls] <= 2 and len(ctx.violations) < 6:
                 ctx.violation("input", case=rec_of(c), expected="every target holds a faithful copy of every source (names, structure, bytes%s), nothing else changes, an obstacle is reported and harms nothing else"
                               % (", modes and mtimes" if c.pres else ""), observed="; ".join(fails[:4])[:900], engine="pcp", detail=describe(c) + " | stderr: " + c.err.decode("latin-1")[:300])
             continue
@@ -493,7 +497,7 @@ def run(ctx):
                 "different copy (longer files, other modes, left-over entries), or holding an entry of the wrong kind in the way; every run judged by a "
                 "recursive comparison and compared with the extracted models; evaluations = copies made (runs x targets); distinct_nontrivial = runs with "
                 ">= 3 source entries",
-        "samples": samples, "input_distribution": dist, "corpus_cases": ncorpus, "property_failures": bad_s, "correspondence_disagreements": bad_c,
+        "samples": samples, "input_distribution": dist, "corpus_cases": ncorpus, "property_failures": bad_s, "property_failure_classes": seen_cls, "correspondence_disagreements": bad_c,
         "bytes_copied_per_target": nbytes, "st_blksize": blk, "code_under_test": flags})
     return ctx.finish(cov, ["copies run as root: no permission failures (an unreadable source cannot be produced); the obstacle cases stand for 'a file that cannot be written'",
                             "the three targets are directories of one machine reached through tests/test-modules/pcptest.c (sh -c 'cd host; pdcp -z ...'), not through a network transport",
